@@ -302,7 +302,8 @@ def r4_3(run):
     # stores that renumber the end nodes of the active branches
     ends = {}
     for s_ in r.stores():
-        if len(s_.index) == 2 and s_.index[1] in (FROM, TO) and s_.base[0] == "idx" and s_.base[2] == (C("branch"),):
+        b_ = base_of(s_.base)
+        if len(s_.index) == 2 and s_.index[1] in (FROM, TO) and b_[0] == "idx" and b_[2] == (C("branch"),):
             ends.setdefault(s_.index[1][1].split(".")[-1], []).append(s_)
     ok = set(ends) == {"FROM_NODE", "TO_NODE"} and all(len(v) == 1 for v in ends.values())
     run.ob("reduce_pit|end-node-renumbering-present", ok,
@@ -310,7 +311,7 @@ def r4_3(run):
     if ok:
         sf, st_ = ends["FROM_NODE"][0], ends["TO_NODE"][0]
         swapped = subst(sf.value, {key(FROM): TO})
-        run.ob("reduce_pit|both-ends-same-remap", key(swapped) == key(st_.value) and key(sf.base) == key(st_.base)
+        run.ob("reduce_pit|both-ends-same-remap", key(swapped) == key(st_.value) and key(base_of(sf.base)) == key(base_of(st_.base))
                and key(sf.cond) == key(st_.cond),
                "FROM_NODE and TO_NODE are remapped by the same expression (only the column differs), into the same table, "
                "under the same condition", run.where(f, st_.node), detail="%s / %s" % (show(sf.value)[:150], show(st_.value)[:150]))
@@ -385,6 +386,17 @@ def r4_3(run):
         direct = any(contains(s_.base, C("_lookups")) for s_ in per_tbl)
         via = any(contains(s2.base, C("_lookups")) and not s2.loops and key(base_of(s2.value)) == key(base_of(s_.base))
                   for s_ in per_tbl for s2 in st if s2.seq > s_.seq)
+        if not (direct or via):
+            # ... or into a dict object that was stored there *before* the loop (the same object: later item stores are visible).
+            # Copies are kept apart for this (strip=False): a store into the original lookup instead of the stored copy is not accepted.
+            r_ns = ANF(ix, rl, param_alias=alias, strip=False).run()
+            st_ns = r_ns.stores()
+            for s_ in st_ns:
+                if s_.loops and len(s_.index) == 1 and s_.index[0][0] == "loop":
+                    holder = base_of(s_.base)
+                    if holder[0] == "call" and holder[1] == ("x", "copy.deepcopy") and any(
+                            contains(s2.base, C("_lookups")) and not s2.loops and key(base_of(s2.value)) == key(holder) for s2 in st_ns):
+                        via = True
         run.ob("reduce_lookups|lookup-stored-per-table", direct or via,
                "the renumbered copy is what is stored as the active index lookup of the table", w)
     # from_to table rebuilt cumulatively
